@@ -73,7 +73,30 @@ def matching_keys(rng, km, count):
     return sorted(set(out))
 
 
+def gen_dense_problem(rng, chk):
+    """a handful of vertices on a tiny machine with many nets: long per-chip tables with few distinct routes,
+    which is where ordered covering merges (and where a wrong merge shows)"""
+    w, h = rng.choice(((1, 1), (1, 1), (2, 1), (2, 2), (3, 1)))
+    m = Machine(w, h, chip_resources={Cores: 18, SDRAM: 64})
+    nv = rng.randint(2, 5)
+    vr = {"v%d" % i: {Cores: 1} for i in range(nv)}
+    names = list(vr)
+    cons = [ReserveResourceConstraint(Cores, slice(0, 1))] if rng.random() < 0.5 else []
+    nnets = rng.randint(6, 16)
+    keys = gen_keys(rng, nnets)
+    if keys is None:
+        return None
+    nets, net_keys = [], {}
+    for i in range(nnets):
+        n = Net(rng.choice(names), [rng.choice(names) for _ in range(rng.choice((1, 1, 2)))])
+        nets.append(n)
+        net_keys[n] = keys[i]
+    return vr, nets, net_keys, m, cons
+
+
 def gen_problem(rng, chk):
+    if rng.random() < 0.3:
+        return gen_dense_problem(rng, chk)
     m = gen.random_machine(rng, maxw=chk.pick(7, 12), maxh=chk.pick(7, 12), p_dead_chip=rng.choice((0, 0.05, 0.1)),
                            fault_rate=rng.choice((0, 0, 0.02, 0.05, 0.1, 0.2)), connected=True,
                            resources={Cores: 18, SDRAM: 64})
